@@ -652,3 +652,31 @@ func (e *EK) SwallowOf(call *ssa.Call) *Swallow {
 	}
 	return sw
 }
+
+// KindsPathwise: the kinds v may have on entry to block b, computed edge-wise: the union over
+// the predecessors of (kinds on entry to the predecessor) refined by that edge's fact. This keeps
+// disjunctive conditions (`a == nil || a == sentinel`) that a must-intersection at the join loses.
+func (e *EK) KindsPathwise(v ssa.Value, b *ssa.BasicBlock, depth int) Kinds {
+	F := FactsOf(b.Parent())
+	def, _ := v.(ssa.Instruction)
+	if depth > 8 || len(b.Preds) == 0 || (def != nil && def.Block() == b) {
+		return e.KindsAt(v, F.At(b))
+	}
+	var k Kinds
+	for _, p := range b.Preds {
+		var kp Kinds
+		if def != nil && def.Block() == p {
+			kp = e.Raw(v)
+		} else if def != nil && !def.Block().Dominates(p) {
+			continue // the value is not defined on this path (loop entry)
+		} else {
+			kp = e.KindsPathwise(v, p, depth+1)
+		}
+		fs := factSet{}
+		if ef, ok := edgeFact(p, b); ok {
+			F.expand(ef, fs, 0)
+		}
+		k |= e.refine(v, kp, fs)
+	}
+	return e.refine(v, k, F.At(b))
+}
